@@ -178,11 +178,12 @@ def command(draw):
 
 
 @st.composite
-def plans(draw, avoid=(), enum_every=4):
+def plans(draw, avoid=(), enum_every=4, all_pairs_every=80):
     return {"inp": draw(module_spec("in")), "out": draw(module_spec("out")),
             "cmds": draw(st.lists(command(), min_size=1, max_size=3)),
             "black": draw(st.sampled_from((True, True, True, False))),
             "enum": (draw(st.integers(0, enum_every - 1)) == enum_every - 1) if enum_every else False,
+            "all_pairs": (draw(st.integers(0, all_pairs_every - 1)) == all_pairs_every - 1) if all_pairs_every else False,
             "avoid": sorted(avoid)}
 
 
@@ -386,13 +387,12 @@ def default_hazard(inn, out):
 
 
 def stale_hazard(prev_pairs, out, out_tree):
-    """F-C13-6 region: an earlier pair of the same command moved the input attribute `X.a` into a class that
-    precedes the output's own class `X`, and this pair selects the output's `X.a`."""
-    if out["kind"] != "attr":
-        return False
+    """F-C13-6 region: an earlier pair of the same command moved the input node `X.a` (or `X.m.p`) into a class
+    body that is visited before the output's own `X.a` (`X.m.p`), and this pair selects that output location:
+    a replacement that goes by the first node carrying the queried location hits the moved node."""
     for pin, pout in prev_pairs:
-        if pin["kind"] == "attr" and pout["kind"] == "attr" and pin["path"] == out["path"] \
-                and pout["at"][0] < out["at"][0]:
+        if pin["kind"] in ("attr", "param") and pout["kind"] == "attr" and pin["path"] == out["path"] \
+                and pout["at"] < out["at"]:
             return True
     return False
 
@@ -627,12 +627,12 @@ def _default_map(fn):
     return m
 
 
-def check_defaults(before_tree, after_tree, chosen, exps):
+def check_defaults(before_tree, after_tree, chosen, exps, flags):
     """D4, second half: parameter -> default is the same map except for the renamed keys."""
     v = []
     fb, fa = _functions(before_tree), _functions(after_tree)
     for key in sorted(fb):
-        if key not in fa:
+        if key not in fa or fa[key].name != fb[key].name:
             continue        # reported by the structural comparison
         mb, ma = _default_map(fb[key]), _default_map(fa[key])
         here = [(inn, out, exp) for (inn, out), exp in zip(chosen, exps)
@@ -654,7 +654,9 @@ def check_defaults(before_tree, after_tree, chosen, exps):
                               ", ".join(o["path"] for _, o, _ in here) or "none of this function"),
                           "sig": {"what": "default_changed", "victim": "other", "same_name_value": bool(same),
                                   "all_defaulted": aligned,
-                                  "new_is_input_value": any(exp.get("in_value") == ma[name] for _, _, exp in here)}})
+                                  "new_is_input_value": any(exp.get("in_value") == ma[name] for _, _, exp in here),
+                                  "input_shadowed": flags["input_shadowed"],
+                                  "arg_in_class_body": flags["arg_in_class_body"]}})
                 break
     return v
 
@@ -671,13 +673,13 @@ def check_ok(cmd, chosen, in_tree, before_text, after_text, black, flags):
     except SyntaxError as e:
         return [{"clause": "D2", "detail": "output file does not parse: %s; text: %r" % (e, after_text[:400]),
                  "sig": {"what": "unparsable", "cell": "+".join(sorted(set(cells))), "black": bool(black),
-                         "input_shadowed": any(f["input_shadowed"] for f in flags)},
+                         "input_shadowed": flags["input_shadowed"]},
                  "unparsable": True}]
     v = []
     before_tree = ast.parse(before_text)
     model = before_tree
     exps = [expectation(cmd, inn, out, in_tree, before_tree) for inn, out in chosen]
-    for k, ((inn, out), fl, exp) in enumerate(zip(chosen, flags, exps)):
+    for k, ((inn, out), exp) in enumerate(zip(chosen, exps)):
         part, got, want = check_location(exp, after_tree, out)
         if part is None:
             continue
@@ -695,11 +697,12 @@ def check_ok(cmd, chosen, in_tree, before_text, after_text, black, flags):
                                                                    o2["path"]),
                           "sig": {"what": "default_changed", "victim": "other", "same_name_value": True,
                                   "all_defaulted": o2["n_defaults"] == o2["n_args"] - o2["off"],
-                                  "new_is_input_value": True}})
+                                  "new_is_input_value": True, "input_shadowed": flags["input_shadowed"],
+                                  "arg_in_class_body": flags["arg_in_class_body"]}})
                 continue
         v.append({"clause": "D3", "detail": "%s <- %s (%s): %s of the selected location is %r, expected %r" % (
             out["path"], inn["path"], exp["cell"], part, got, want),
-            "sig": dict(fl, what="location_differs", cell=exp["cell"], part=part)})
+            "sig": dict(flags, what="location_differs", cell=exp["cell"], part=part)})
     outs = [o for _, o in chosen]
     da, db = _dump(_masked(after_tree, outs)), _dump(_masked(model, outs))
     if da != db:
@@ -709,9 +712,9 @@ def check_ok(cmd, chosen, in_tree, before_text, after_text, black, flags):
             "module docstring" if only_doc else area, text),
             "sig": {"what": "ast_changed", "only_module_docstring": only_doc,
                     "area": "module_docstring" if only_doc else area,
-                    "stale_hazard": any(f["stale_hazard"] for f in flags),
-                    "input_shadowed": any(f["input_shadowed"] for f in flags)}})
-    v += check_defaults(before_tree, after_tree, chosen, exps)
+                    "stale_hazard": flags["stale_hazard"], "input_shadowed": flags["input_shadowed"],
+                    "arg_in_class_body": flags["arg_in_class_body"]}})
+    v += check_defaults(before_tree, after_tree, chosen, exps, flags)
     return v
 
 
@@ -806,15 +809,15 @@ def _count_fired(o, stats):
 
 
 def _flags(cmd, chosen, in_tree, out_tree):
-    """Machine-computed region flags that go into D2/D3/D4 signatures."""
-    stale = any(stale_hazard(chosen[:j], chosen[j][1], out_tree) for j in range(len(chosen)))
-    out = []
-    for inn, o in chosen:
-        reused = bool(cmd.get("wrap")) and inn["kind"] != "const" and bool(inn.get("annotated")) and \
+    """Machine-computed region flags that go into D2/D3/D4 signatures.  They are taken over all pairs of the
+    command: pairs interact (a node written by one pair can swallow its neighbour when the text is re-parsed)."""
+    def reused(inn):
+        return bool(cmd.get("wrap")) and inn["kind"] != "const" and bool(inn.get("annotated")) and \
             sum(1 for i2, _ in chosen if i2["path"] == inn["path"]) > 1
-        out.append({"input_shadowed": input_hazard(in_tree, inn), "input_reused_with_wrap": reused,
-                    "stale_hazard": stale})
-    return out
+    return {"input_shadowed": any(input_hazard(in_tree, inn) for inn, _ in chosen),
+            "input_reused_with_wrap": any(reused(inn) for inn, _ in chosen),
+            "stale_hazard": any(stale_hazard(chosen[:j], chosen[j][1], out_tree) for j in range(len(chosen))),
+            "arg_in_class_body": any(_cell(inn, o) == "attr_from_param" for inn, o in chosen)}
 
 
 def _attribute_unparsable(world, cmd, chosen, cp, black):
@@ -851,9 +854,11 @@ def simulate(plan, enumerate_all=None):
     world = SimWorld(tag="c13")
     world.write_files(files)
     history = []
-    concrete = dict(plan, cmds=[])
+    concrete = dict(plan, cmds=[], all_pairs=False)
     completed = 0
     try:
+        if plan.get("all_pairs") and not hyp.SHRINKING[0]:
+            res.violations += _all_pairs(world, plan, in_tree, out_text, black, stats, files)
         for ci, cmd in enumerate(plan["cmds"]):
             before_text = world.read(OUT_REL)
             out_tree = ast.parse(before_text)       # kept parseable by the recovery step below
@@ -985,6 +990,46 @@ def _probe_ok(probe, stats, cmd, chosen, ci, history):
         _bump(probe, "target_with_default" if has_default else "target_without_default")
 
 
+def _all_pairs(world, plan, in_tree, out_text, black, stats, files):
+    """Every valid (input path, output path) of the two initial files as a one-pair command of its own
+    (plus --input-eval of the first constant into every output location; a wrap template on every third)."""
+    viols = []
+    out_tree = ast.parse(out_text)
+    in_locs, consts, out_locs = read_locations(in_tree), read_consts(in_tree), read_locations(out_tree)
+    cp = world.checkpoint()
+    k = 0
+    for out in out_locs:
+        cands = [l for l in in_locs if (l["name"] == out["name"] or l["name"] not in out["scope"])
+                 and (out["kind"] != "attr" or l["annotated"])] + consts[:1]
+        for inn in cands:
+            k += 1
+            cmd = {"pairs": [{"in": inn["path"], "out": out["path"]}], "wrap": WRAPS[k % len(WRAPS)] if k % 3 == 0 else None,
+                   "eval": inn["kind"] == "const", "fault": None, "rough": True}
+            chosen = [(inn, out)]
+            op = {"cmd": "cli", "argv": argv_of(cmd, chosen)}
+            before = world.snapshot(with_mtime=True)
+            o = ops.invoke(world, op, black=black)
+            after = world.snapshot(with_mtime=True)
+            stats["evaluations"] += 1
+            _bump(stats, "all_pairs_commands")
+            _bump(stats["outcomes"], "all_pairs:" + o.kind)
+            vs = check_always(before, after, o.events)
+            if o.ok:
+                vs += check_ok(cmd, chosen, in_tree, out_text, world.read(OUT_REL) or "", black,
+                               _flags(cmd, chosen, in_tree, out_tree))
+                _bump(stats["extra"]["cells"], _cell(inn, out) + ":returned(all-pairs)")
+            for x in vs:
+                x.pop("unparsable", None)
+                x["detail"] = "all-pairs sweep, %s [black %s]: %s" % (" ".join(op["argv"]), "present" if black else "absent",
+                                                                      x["detail"])
+                x["final"] = True
+                x["trace"] = {"kind": "c13-plan", "files": files,
+                              "plan": dict(plan, cmds=[cmd], enum=False, all_pairs=False)}
+            viols += vs
+            world.restore(cp)
+    return viols
+
+
 def _enumerate(world, op, cp, reh_events, black, stats):
     """Every seam call of this command faulted once per kind (error, crash; torn close for close_w)."""
     viols = []
@@ -1025,14 +1070,14 @@ def _avoid(known):
 
 
 def plan(tier, seed, scale=1.0):
-    per = int({"quick": 400, "thorough": 6000}[tier] * scale)
+    per = int({"quick": 700, "thorough": 6000}[tier] * scale)
     return [{"seed": seed * 1000 + w, "n": per, "tier": tier} for w in range(16)]
 
 
 def work(task):
     known = load_known(ID)
     quick = task["tier"] == "quick"
-    strat = plans(avoid=_avoid(known), enum_every=4 if quick else 3)
+    strat = plans(avoid=_avoid(known), enum_every=4 if quick else 3, all_pairs_every=80 if quick else 16)
     return explore(strat, simulate, task["seed"], task["n"], known, batch=50 if quick else 100,
                    max_shrink_runs=300, max_shrink_s=45.0)
 
